@@ -270,7 +270,7 @@ Definition civil_ok (y mo d h mi s : N) : bool :=
 (* zone suffix: "Z", or sign hh mm with hh <= 24, mm <= 59 and not 00:00 (Format prints Z for offset 0) *)
 Definition zone_of (z : bytes) : option Z :=
   match z with
-  | [90] => Some 0%Z
+  | [x] => if x =? 90 then Some 0%Z else None
   | [sg; a; b; c; d] =>
       match p2 a b, p2 c d with
       | Some hh, Some mm =>
